@@ -88,7 +88,11 @@ func (pw *packetWriter) Write(p []byte) (n int, err error) {
 func (pw *packetWriter) ReadFrom(r io.Reader) (n int64, err error) {
 	buf := pw.pkt[:]
 	for {
-		nr, er := r.Read(buf)
+		nr, er := io.ReadFull(r, buf)
+		if er == io.ErrUnexpectedEOF {
+			// a partial packet at the end of the stream; reported below
+			er = io.EOF
+		}
 		if nr == PacketSize {
 			nw, ew := pw.WritePacket(&pw.pkt)
 			if nw > 0 {
